@@ -162,21 +162,39 @@ func runC12(o *hx.Out, r *hx.Rand, thorough bool) {
 		rt := regTerm(reg)
 		ipc := &inprocgrpc.Channel{}
 		hm := grpchan.HandlerMap{}
-		for _, s := range reg {
-			d := mkDesc(s, l)
-			ipc.RegisterService(d, &hx.Svc{})
-			hm.RegisterService(d, &hx.Svc{})
-		}
-		for _, n := range names {
-			for _, unary := range []bool{true, false} {
-				desc := map[string]interface{}{"transport": "inprocgrpc", "registry": reg2json(reg), "unary": unary, "name": n}
-				o.Begin(desc)
-				obs := callName(ipc, unary, n, l)
-				desc["observed"] = obs
-				if obs == "OPanic" {
-					o.Violate("in-process channel panicked on a method name", desc, "panic", "a status error")
+		// the services are registered one at a time and names are called in between: what a name
+		// resolves to depends on the registrations made so far, never on earlier calls
+		for k := 0; k <= len(reg); k++ {
+			if k > 0 {
+				d := mkDesc(reg[k-1], l)
+				ipc.RegisterService(d, &hx.Svc{})
+				hm.RegisterService(d, &hx.Svc{})
+			}
+			try := names
+			rtk := rt
+			if k < len(reg) {
+				rtk = regTerm(reg[:k])
+				try = nil
+				for _, sv := range reg {
+					for _, m := range append(append([]string{}, sv.unary...), sv.streams...) {
+						try = append(try, "/"+sv.name+"/"+m)
+					}
 				}
-				o.Case("inproc", fmt.Sprintf("Inproc %s %s %s %s", rt, hx.B(unary), hx.Str(n), obs), desc)
+				for j := 0; j < 5; j++ {
+					try = append(try, names[r.Intn(len(names))])
+				}
+			}
+			for _, n := range try {
+				for _, unary := range []bool{true, false} {
+					desc := map[string]interface{}{"transport": "inprocgrpc", "registry": reg2json(reg[:k]), "registered_later": len(reg) - k, "unary": unary, "name": n}
+					o.Begin(desc)
+					obs := callName(ipc, unary, n, l)
+					desc["observed"] = obs
+					if obs == "OPanic" {
+						o.Violate("in-process channel panicked on a method name", desc, "panic", "a status error")
+					}
+					o.Case("inproc", fmt.Sprintf("Inproc %s %s %s %s", rtk, hx.B(unary), hx.Str(n), obs), desc)
+				}
 			}
 		}
 		// HTTP: two bases per registry, both ways of registering
